@@ -477,6 +477,29 @@ async fn run_op(env: Arc<Env>, task: String, op: Value) {
         }
       }
     }
+    "poll_n" => {
+      // a receiver that polls: recv_multipart() in a loop on a socket with RCVTIMEO=0 (would-block
+      // answers are not recorded) until n messages have come or `for_ms` has passed
+      let s = sock.expect("sock");
+      let n = op["n"].as_u64().unwrap_or(1);
+      let for_ms = op["for_ms"].as_u64().unwrap_or(3000);
+      let t0 = Instant::now();
+      let mut got = 0u64;
+      let mut polls = 0u64;
+      while got < n && (t0.elapsed().as_millis() as u64) < for_ms {
+        polls += 1;
+        match with_timeout(tmo, s.recv_multipart()).await {
+          Ok(fr) => {
+            got += 1;
+            let (ids, ok, sizes, mores) = describe_frames(&fr);
+            let first_hex = fr.first().map(|f| rzmq::verif::hex_prefix(f.data().unwrap_or(&[]), 300)).unwrap_or_default();
+            rec(&task, "ret", format!("\"op\":\"recv_mp\",\"sock\":\"{}\",\"res\":\"ok\",\"ids\":{:?},\"intact\":{},\"sizes\":{:?},\"mores\":{:?},\"hex\":\"{}\",\"t\":{}", sname, ids, ok, sizes, mores, first_hex, ms(&env)));
+          }
+          Err(_) => tokio::task::yield_now().await,
+        }
+      }
+      rec(&task, "mark", format!("\"op\":\"poll_n\",\"sock\":\"{}\",\"got\":{},\"polls\":{},\"t\":{}", sname, got, polls, ms(&env)));
+    }
     "echo_n" => {
       // ROUTER-style echo: receive a multipart message and send the very same frames back
       // (first frame = identity of the connection it came from). One record per message.
